@@ -1,7 +1,7 @@
 (* Values, error classes, result monad. *)
 From Coq Require Import ZArith NArith List Bool.
 From Coq Require Import Strings.Byte.
-Require Import Bytes.
+Require Import Bytes Float.
 Import ListNotations.
 
 Definition name := list byte.
@@ -114,6 +114,18 @@ Definition f64_eqb (a b : N) : bool :=
   else if f64_is_zero a && f64_is_zero b then true
   else (a =? b)%N.
 
+(* Python's int == float: exact comparison of the integer with the value of the binary64 pattern *)
+Definition f64_int_eqb (z : Z) (b : N) : bool :=
+  if is_nan binary64 b || is_inf binary64 b then false
+  else
+    let '(sig, ex) := f_sig_ex binary64 b in
+    let neg := N.eqb (f_sign binary64 b) 1 in
+    let mag := Z.to_N (Z.abs z) in
+    let sign_ok := if N.eqb sig 0 then true else Bool.eqb neg (z <? 0)%Z in
+    sign_ok &&
+    (if (0 <=? ex)%Z then N.eqb mag (sig * 2 ^ Z.to_N ex)
+     else let k := Z.to_N (- ex) in N.eqb (sig mod 2 ^ k) 0 && N.eqb mag (sig / 2 ^ k)).
+
 Definition int_of_val (v : val) : option Z :=
   match v with
   | VInt z => Some z
@@ -131,6 +143,8 @@ Fixpoint val_eqb (a b : val) {struct a} : bool :=
   | VBool x, VInt z | VInt z, VBool x => Z.eqb z (if x then 1 else 0)
   | VInt x, VInt y => Z.eqb x y
   | VFloat x, VFloat y => f64_eqb x y
+  | VInt z, VFloat x | VFloat x, VInt z => f64_int_eqb z x
+  | VBool t, VFloat x | VFloat x, VBool t => f64_int_eqb (if t then 1 else 0) x
   | VBytes x, VBytes y => bytes_eqb x y
   | VStr x, VStr y => list_eqb N.eqb x y
   | VEnum l _, VEnum l' _ => bytes_eqb l l'
